@@ -83,10 +83,23 @@ SPEC_M = [
         "exit_menu", "exit_app", "get_public_key", "send_command", "sign_unauthorized",
         "_send_data_in_chunks"]),
 ]
+SPEC_M.append(("ledger.hsm2dongle", "HSM2Dongle", ["reset_advance_blockchain"]))
+SPEC_M.append(("ledger.protocol", "HSM2ProtocolLedger", [
+    "report_comm_issue", "_error", "ensure_connection", "_get_pubkey", "_reset_advance_blockchain"]))
+# attributes of self that hold another translated object: (class, attribute) -> (module, class)
+ATTR_CLASS = {("HSM2ProtocolLedger", "hsm2dongle"): ("ledger.hsm2dongle", "HSM2Dongle")}
+# methods that are primitives of the device monad rather than translated
+PRIM_M = {("HSM2Dongle", "disconnect"): "m_disconnect", ("HSM2Dongle", "connect"): "m_connect"}
+# methods kept abstract (a parameter of type pm pv): the bring-up, which has its own model and theorems
+ABSTRACT_M = {("HSM2ProtocolLedger", "initialize_device"): "initialize_device_"}
+# attributes of self that live in the world
+STATE_ATTR = {("HSM2ProtocolLedger", "_comm_issue"): ("m_get_comm_issue", "m_set_comm_issue")}
 # exception classes of the middleware: Python class name -> constructor of Model/Device.v's exn
 XEXC = {"HSM2DongleError": "DongleError", "HSM2DongleTimeoutError": "DongleTimeout",
         "HSM2DongleCommError": "DongleComm", "HSM2ProtocolError": "ProtocolError",
         "HSM2ProtocolInterrupt": "ProtocolInterrupt"}
+# classes outside the generated dongle hierarchy: the ids Model/Device.v's exn_class gives them
+XCLS_ID = {"HSM2ProtocolError": 200, "HSM2ProtocolInterrupt": 201}
 XCLS = {"HSM2DongleError", "HSM2DongleTimeoutError", "HSM2DongleCommError", "HSM2DongleErrorResult",
         "HSM2DongleBaseError"}
 
@@ -97,8 +110,8 @@ TYPES = {"dict": "TDict", "str": "TStr", "int": "TInt", "list": "TList", "bytes"
          "bool": "TBool", "float": "TFloat"}
 LOGGER_NAMES = {"logger", "_logger", "LOGGER"}
 EXTRA_TYPES = {"op_": "pv -> pv -> pr pv", "int_oracle_": "str -> Z -> option Z", "fuel_": "nat",
-               "call_method_": "string -> pv -> list pv -> pr pv"}
-EXTRA_ORDER = ["fuel_", "int_oracle_", "call_method_", "op_"]
+               "call_method_": "string -> pv -> list pv -> pr pv", "initialize_device_": "pm pv"}
+EXTRA_ORDER = ["fuel_", "int_oracle_", "call_method_", "initialize_device_", "op_"]
 
 
 def coq_string(x):
@@ -439,6 +452,12 @@ class FuncTr:
                 self.mut.add((self.params.index(tgt.value.id), kc))
             return "pbind (%s) (fun %s => pbind (%s) (fun %s => pbind (py_setitem %s %s %s) (fun %s =>\n%s)))" % (
                 self.expr(value), t, key, kt, n, kt, t, n, self.stmts(rest, k, ret))
+        if self.M and isinstance(tgt, ast.Attribute) and isinstance(tgt.value, ast.Name) \
+                and tgt.value.id == self.selfname and self.cls is not None \
+                and (self.cls.__name__, tgt.attr) in STATE_ATTR:
+            t = self.fresh()
+            return "pbind (%s) (fun %s => pbind (%s %s) (fun _ =>\n%s))" % (
+                self.expr(value), t, STATE_ATTR[(self.cls.__name__, tgt.attr)][1], t, self.stmts(rest, k, ret))
         if isinstance(tgt, ast.Attribute) and isinstance(tgt.value, ast.Name) and tgt.value.id == self.selfname:
             t = self.fresh()
             n = self.v(self.selfname)
@@ -457,23 +476,27 @@ class FuncTr:
     def try_m(self, st, kk, ret):
         """monadic backend: any mix of returning / falling-through bodies and handlers; results are tagged
         [VInt 2; value] = return from the function, [VInt 1; state] = fell through"""
-        need(len(st.handlers) == 1, "more than one handler", st)
-        h = st.handlers[0]
-        catch_all, pats = False, []
-        tys = [] if h.type is None else (h.type.elts if isinstance(h.type, ast.Tuple) else [h.type])
-        if h.type is None:
-            catch_all = True
-        for t in tys:
-            need(isinstance(t, ast.Name), "handler type", h)
-            if t.id in ("Exception", "BaseException"):
+        def pats_of(h):
+            catch_all, pats = False, []
+            tys = [] if h.type is None else (h.type.elts if isinstance(h.type, ast.Tuple) else [h.type])
+            if h.type is None:
                 catch_all = True
-            elif t.id in EXC:
-                pats.append("XPy %s" % EXC[t.id])
-            elif t.id in XCLS:
-                pats.append("XCls EXC_%s" % t.id)
-            else:
-                need(False, "exception class %s" % t.id, h)
-        names = assigned_names(st.body) + [n for n in assigned_names(h.body) if n not in assigned_names(st.body)]
+            for t in tys:
+                need(isinstance(t, ast.Name), "handler type", h)
+                if t.id in ("Exception", "BaseException"):
+                    catch_all = True
+                elif t.id in EXC:
+                    pats.append("XPy %s" % EXC[t.id])
+                elif t.id in XCLS:
+                    pats.append("XCls EXC_%s" % t.id)
+                elif t.id in XCLS_ID:
+                    pats.append("XCls %d" % XCLS_ID[t.id])
+                else:
+                    need(False, "exception class %s" % t.id, h)
+            return catch_all, pats
+        names = assigned_names(st.body)
+        for h in st.handlers:
+            names += [n for n in assigned_names(h.body) if n not in names]
         tup = "VList [%s]" % "; ".join(self.v(n) for n in names)
         init_missing = [n for n in names if n not in self.bound_before(st)]
 
@@ -483,13 +506,29 @@ class FuncTr:
         pre = "".join("pbind (POk VNone) (fun %s =>\n" % self.v(n) for n in init_missing)
         post = ")" * len(init_missing)
         body = self.stmts(st.body, fall, tag_ret)
-        if h.name:
-            self.excvars.add(h.name)
-        hand = self.stmts(h.body, fall, tag_ret)
-        return ("%sptry_k (%s) %s [%s]\n  (fun e_%s => %s)\n  (fun r_ => match r_ with\n"
+        # handlers are tried in order; an exception none of them matches propagates
+        chain = "PRaiseX e_"
+        arms = []
+        for h in st.handlers:
+            ca, pats = pats_of(h)
+            if h.name:
+                self.excvars.add(h.name)
+            hb = self.stmts(h.body, fall, tag_ret)
+            if h.name:
+                hb = hb.replace("e_%s" % ident(h.name), "e_")
+                self.excvars.discard(h.name)
+            arms.append((ca, pats, hb))
+        if len(arms) == 1:
+            ca, pats, hb = arms[0]
+            return ("%sptry_k (%s) %s [%s]\n  (fun e_ => %s)\n  (fun r_ => match r_ with\n"
+                    "   | VList [VInt 2%%Z; rv_] => %s\n   | VList [VInt 1%%Z; %s] => %s\n   | _ => PStuck end)%s"
+                    % (pre, body, "true" if ca else "false", "; ".join(pats), hb, ret("POk rv_"), tup, kk, post))
+        for ca, pats, hb in reversed(arms):
+            cond = "true" if ca else "existsb (xpat_matches e_) [%s]" % "; ".join(pats)
+            chain = "if %s then (%s)\n    else %s" % (cond, hb, chain)
+        return ("%sptry_k (%s) true []\n  (fun e_ => %s)\n  (fun r_ => match r_ with\n"
                 "   | VList [VInt 2%%Z; rv_] => %s\n   | VList [VInt 1%%Z; %s] => %s\n   | _ => PStuck end)%s"
-                % (pre, body, "true" if catch_all else "false", "; ".join(pats), ident(h.name or ""), hand,
-                   ret("POk rv_"), tup, kk, post))
+                % (pre, body, chain, ret("POk rv_"), tup, kk, post))
 
     def try_inner(self, st, kk, ret):
         if self.M:
@@ -834,6 +873,9 @@ class FuncTr:
             if self.M and isinstance(e.value, ast.Name) and e.value.id in self.excvars:
                 need(e.attr == "error_code", "attribute %s of an exception object" % e.attr, e)
                 return "m_error_code e_%s" % ident(e.value.id)
+            if self.M and isinstance(e.value, ast.Name) and e.value.id == self.selfname and self.cls is not None \
+                    and (self.cls.__name__, e.attr) in STATE_ATTR:
+                return STATE_ATTR[(self.cls.__name__, e.attr)][0]
             if isinstance(e.value, ast.Name) and e.value.id == self.selfname and self.cls is not None:
                 special = self.special_attr(e.attr)
                 if special:
@@ -944,6 +986,18 @@ class FuncTr:
         cache[self.cls] = res
         return res
 
+    def log_only_param(self, fd, pname):
+        """True if parameter pname of fd is used only inside log calls and raise statements"""
+        allowed = set()
+        for n in ast.walk(fd):
+            if isinstance(n, ast.Raise) or (isinstance(n, ast.Expr) and self.is_log_call(n.value)):
+                for x in ast.walk(n):
+                    allowed.add(id(x))
+        for n in ast.walk(fd):
+            if isinstance(n, ast.Name) and n.id == pname and isinstance(n.ctx, ast.Load) and id(n) not in allowed:
+                return False
+        return True
+
     def resolve_callee_args(self, fd, call, skip_self):
         """positional argument expressions of a call, defaults filled in from the callee's signature."""
         params = [a.arg for a in fd.args.args][1 if skip_self else 0:]
@@ -958,7 +1012,13 @@ class FuncTr:
         res = []
         for p in params:
             if p in out:
-                res.append(out[p])
+                if self.is_opaque_expr(out[p]):
+                    # a formatted text handed to a parameter the callee only logs / puts into an exception message
+                    need(self.log_only_param(fd, p) and self.safe_arg(out[p]),
+                         "formatted text passed to a parameter that is not log-only", call)
+                    res.append(ast.Constant(value=""))
+                else:
+                    res.append(out[p])
             else:
                 need(p in dmap, "missing argument %s" % p, call)
                 res.append(dmap[p])
@@ -967,6 +1027,43 @@ class FuncTr:
     def call_m(self, e):
         """calls that only the monadic backend knows; None = not one of them"""
         f = e.func
+        if isinstance(f, ast.Attribute) and isinstance(f.value, ast.Name) and f.value.id == self.selfname \
+                and self.cls is not None and (self.cls.__name__, f.attr) in ABSTRACT_M:
+            p_ = ABSTRACT_M[(self.cls.__name__, f.attr)]
+            need(not e.args and not e.keywords, "abstract method with arguments", e)
+            if p_ not in self.extra_params:
+                self.extra_params.append(p_)
+            return p_
+        # self.<attr>.<method>(...) where <attr> holds another translated object
+        if isinstance(f, ast.Attribute) and isinstance(f.value, ast.Attribute) and isinstance(f.value.value, ast.Name) \
+                and f.value.value.id == self.selfname and self.cls is not None \
+                and (self.cls.__name__, f.value.attr) in ATTR_CLASS:
+            mod2, cname2 = ATTR_CLASS[(self.cls.__name__, f.value.attr)]
+            if (cname2, f.attr) in PRIM_M:
+                need(not e.args and not e.keywords, "primitive with arguments", e)
+                return PRIM_M[(cname2, f.attr)]
+            cls2 = getattr(module(mod2).mod, cname2)
+            meths2 = find_method(cls2)
+            need(f.attr in meths2, "no method %s in %s" % (f.attr, cname2), e)
+            fn = self.gen.method(cls2, f.attr)
+            args = self.resolve_callee_args(meths2[f.attr][1], e, True)
+            ex = "".join(" " + x for x in self.pass_extra(fn))
+            return self.binds(args, lambda a: "%s%s (VObj \"%s\" []) %s" % (fn, ex, cname2, " ".join(a)))
+        # a method of a base class that is pure code already translated by the first backend (validators)
+        if isinstance(f, ast.Attribute) and isinstance(f.value, ast.Name) and f.value.id == self.selfname \
+                and self.cls is not None and f.attr.startswith("_validate_"):
+            meths = find_method(self.cls)
+            need(f.attr in meths, "no method %s" % f.attr, e)
+            dcls, fd2, _m2 = meths[f.attr]
+            for n_ in ast.walk(fd2):
+                if isinstance(n_, ast.Attribute) and isinstance(n_.value, ast.Name) and n_.value.id == "self":
+                    a1 = inspect.getattr_static(self.cls, n_.attr, NOTCONST)
+                    a2 = inspect.getattr_static(dcls, n_.attr, NOTCONST)
+                    need(a1 is a2 or a1 == a2, "constant %s differs between %s and %s" % (
+                        n_.attr, self.cls.__name__, dcls.__name__), e)
+            fn = self.gen.pure.method(dcls, f.attr)
+            args = self.resolve_callee_args(fd2, e, True)
+            return self.binds(args, lambda a: "lift (%s %s %s)" % (fn, self.v(self.selfname), " ".join(a)))
         if isinstance(f, ast.Attribute) and isinstance(f.value, ast.Name) and f.value.id == self.selfname:
             if f.attr == "_send_command":
                 need(1 <= len(e.args) <= 3 and all(k_.arg == "timeout" for k_ in e.keywords), "_send_command call", e)
